@@ -95,13 +95,18 @@ def canary_doc() -> tuple[dict, dict[str, dict]]:
     return doc, slots
 
 
+_re_sib = __import__("re").compile("(" + MARK + r"\d+" + MARK + ")~")
+
+
 def inject(doc: dict, sid: str, text: str, text_plain: str | None = None) -> dict:
     """Replace the canary `sid` by `text` everywhere it occurs (keys and values; `required` lists follow the keys);
     the derived marker `sid~` is replaced by `text_plain` (the same text reduced to letters, digits and `_`)."""
     plain = text if text_plain is None else text_plain
 
     def sub(x: str) -> str:
-        return x.replace(sid + "~", plain).replace(sid, text)
+        x = x.replace(sid + "~", "\x01").replace(sid, text).replace("\x01", plain)
+        # the sibling markers of the *other* slots become ordinary distinct names (no collision, no diagnostic)
+        return _re_sib.sub(r"\1sib", x)
 
     def walk(node: Any) -> Any:
         if isinstance(node, dict):
